@@ -3,6 +3,7 @@ package main
 import (
 	"fmt"
 	"go/token"
+	"go/types"
 	"strings"
 
 	"golang.org/x/tools/go/ssa"
@@ -266,7 +267,9 @@ func signingFunction(c *Ctx) *ssa.Function {
 		if isControlFn(fn) {
 			continue
 		}
-		if len(callsIn(fn, func(ci ssa.CallInstruction) bool { return strings.HasSuffix(calleeName(ci), "crypto/vault.Vault).SignPartial") })) > 0 {
+		if len(callsIn(fn, func(ci ssa.CallInstruction) bool {
+			return strings.HasSuffix(calleeName(ci), "crypto/vault.Vault).SignPartial")
+		})) > 0 {
 			return fn
 		}
 	}
@@ -478,7 +481,9 @@ func ruleSingleSigner(c *Ctx, rule string, sign *ssa.Function) {
 		if isControlFn(fn) {
 			continue
 		}
-		for _, ci := range callsIn(fn, func(ci ssa.CallInstruction) bool { return strings.HasSuffix(calleeName(ci), "crypto/vault.Vault).SignPartial") }) {
+		for _, ci := range callsIn(fn, func(ci ssa.CallInstruction) bool {
+			return strings.HasSuffix(calleeName(ci), "crypto/vault.Vault).SignPartial")
+		}) {
 			n++
 			c.Ok(rule, fnShort(fn)+" signs a partial", shortPos(c.P, ci), fn == sign, "single signing site")
 		}
@@ -515,17 +520,16 @@ func ruleTickAndCatchup(c *Ctx, ruleTick, ruleCU string, sign *ssa.Function) {
 					isGo = true
 					goInstr = g
 				}
+				if g.Common().Value == ssa.Value(cf) { // a literal without free variables is the function value itself
+					isGo = true
+					goInstr = g
+				}
 			}
 		})
 		if !isGo {
 			nTick++
 			// current originates from a receive on the ticker channel; upon from chain.Last
-			curOr := Origins(cur)
-			okCur := allOrigins(curOr, func(o Origin) bool { return o.Kind == "recv" || o.Kind == "freevar" })
-			// resolve free var: binding in run must be the select receive from ChannelAt
-			if okCur {
-				okCur = tickValueFromTicker(run, cf, cur)
-			}
+			okCur := tickValueFromTicker(run, cf, cur)
 			c.Ok(ruleTick, "tick arm signs for the round received from the ticker", c.P.Pos(ed.Pos()), okCur, "current = value received from ticker.ChannelAt(...)")
 			okUpon := derivesFromCall(upon, "Last", 0) || hasOrigin(Origins(upon), func(o Origin) bool { return o.Kind == "call" && strings.HasSuffix(o.Name, ".Last") })
 			var lastCall *ssa.Call
@@ -540,14 +544,22 @@ func ruleTickAndCatchup(c *Ctx, ruleTick, ruleCU string, sign *ssa.Function) {
 		}
 		nCU++
 		// inside the closure: the call passes the closure's own parameters
-		okArgs := false
-		if len(cf.Params) == 2 {
-			okArgs = stripConv(cur) == ssa.Value(cf.Params[0]) && pathOf(upon) == "&"+uniqAllocOf(cf.Params[1]) || (stripConv(cur) == ssa.Value(cf.Params[0]) && addrOfParam(upon, cf.Params[1]))
+		ci, ui := -1, -1
+		for i, p := range cf.Params {
+			if stripConv(cur) == ssa.Value(p) {
+				ci = i
+			}
+			if addrOfParam(upon, p) {
+				ui = i
+			}
 		}
+		okArgs := ci >= 0 && ui >= 0
 		c.Ok(ruleCU, "catch-up closure signs with the tick and beacon it was started with", c.P.Pos(ed.Pos()), okArgs, "broadcastNextPartial(ctx, c, &latest) with the closure's own parameters")
 		// sleep before signing
 		slept := false
-		for _, ci := range callsIn(cf, func(ci ssa.CallInstruction) bool { return ci.Common().IsInvoke() && ci.Common().Method.Name() == "Sleep" }) {
+		for _, ci := range callsIn(cf, func(ci ssa.CallInstruction) bool {
+			return ci.Common().IsInvoke() && ci.Common().Method.Name() == "Sleep"
+		}) {
 			if strings.HasSuffix(pathOf(ci.Common().Args[0]), ".conf.Group.CatchupPeriod") && strings.Contains(pathOf(ci.Common().Value), ".conf.Clock") && dominatesInstr(ci.(ssa.Instruction), site.(ssa.Instruction)) {
 				slept = true
 			}
@@ -570,8 +582,8 @@ func ruleTickAndCatchup(c *Ctx, ruleTick, ruleCU string, sign *ssa.Function) {
 			ga := goInstr.Common().Args
 			okGo := false
 			detail := ""
-			if len(ga) == 2 {
-				curV, bV := ga[0], ga[1]
+			if okArgs && ci < len(ga) && ui < len(ga) {
+				curV, bV := ga[ci], ga[ui]
 				bPtr := derefOf(bV)
 				curPath := pathOf(curV)
 				okGuard := bPtr != nil && dcGuarded(goInstr, DCons{pathOf(bPtr) + ".Round", curPath + ".round", -1})
@@ -609,57 +621,133 @@ func derefOf(v ssa.Value) ssa.Value {
 // tickValueFromTicker: the `current` passed by the tick closure is the run loop's variable assigned from the select
 // receive on the channel returned by ticker.ChannelAt.
 func tickValueFromTicker(run, closure *ssa.Function, cur ssa.Value) bool {
-	// cur is a load of a free variable cell
-	u, ok := stripConv(cur).(*ssa.UnOp)
-	if !ok {
-		return false
-	}
-	fv, ok := u.X.(*ssa.FreeVar)
-	if !ok {
-		return false
-	}
-	var cell ssa.Value
-	forEachInstr(run, func(_ *ssa.BasicBlock, _ int, in ssa.Instruction) {
-		if mc, ok := in.(*ssa.MakeClosure); ok && mc.Fn == ssa.Value(closure) {
-			for i, f := range closure.FreeVars {
-				if f == fv && i < len(mc.Bindings) {
-					cell = mc.Bindings[i]
-				}
-			}
-		}
-	})
-	a, ok := cell.(*ssa.Alloc)
-	if !ok {
-		return false
-	}
-	n, good := 0, 0
-	for _, r := range *a.Referrers() {
-		st, ok := r.(*ssa.Store)
-		if !ok || st.Addr != ssa.Value(a) {
-			continue
-		}
-		n++
-		ex, ok := st.Val.(*ssa.Extract)
+	fromTicker := func(v ssa.Value) bool {
+		ex, ok := stripConv(v).(*ssa.Extract)
 		if !ok {
-			continue
+			return false
 		}
 		sel, ok := ex.Tuple.(*ssa.Select)
 		if !ok {
-			continue
+			return false
 		}
+		// the receive state this Extract reads
+		k := 0
 		for _, s := range sel.States {
-			if call, ok := s.Chan.(*ssa.Call); ok && strings.HasSuffix(calleeName(call), "beacon.ticker).ChannelAt") {
+			if s.Dir != types.RecvOnly {
+				continue
+			}
+			if k == ex.Index-2 {
+				call, ok := s.Chan.(*ssa.Call)
+				return ok && strings.HasSuffix(calleeName(call), "beacon.ticker).ChannelAt")
+			}
+			k++
+		}
+		return false
+	}
+	cellFromTicker := func(a *ssa.Alloc) bool {
+		n, good := 0, 0
+		for _, r := range *a.Referrers() {
+			st, ok := r.(*ssa.Store)
+			if !ok || st.Addr != ssa.Value(a) {
+				continue
+			}
+			n++
+			if fromTicker(st.Val) {
 				good++
 			}
 		}
+		return n > 0 && good == n
 	}
-	return n > 0 && good == n
+	v := stripConv(cur)
+	fn := closure
+	for depth := 0; depth < 4; depth++ {
+		switch x := v.(type) {
+		case *ssa.Parameter:
+			// a parameter of a literal that is called where it is written: the argument of that call
+			arg, parent := callSiteArg(x)
+			if arg == nil {
+				return false
+			}
+			v, fn = stripConv(arg), parent
+			continue
+		case *ssa.Extract:
+			return fromTicker(x)
+		case *ssa.UnOp:
+			if x.Op != token.MUL {
+				return false
+			}
+			switch cell := x.X.(type) {
+			case *ssa.Alloc:
+				if sv, isP := singleStore(cell).(*ssa.Parameter); isP {
+					v = sv // a parameter spilled to a local
+					continue
+				}
+				return cellFromTicker(cell)
+			case *ssa.FreeVar:
+				// the run loop's variable captured by the literal
+				var bound ssa.Value
+				if fn.Parent() != nil {
+					forEachInstr(fn.Parent(), func(_ *ssa.BasicBlock, _ int, in ssa.Instruction) {
+						if mc, ok := in.(*ssa.MakeClosure); ok && mc.Fn == ssa.Value(fn) {
+							for i, f := range fn.FreeVars {
+								if f == cell && i < len(mc.Bindings) {
+									bound = mc.Bindings[i]
+								}
+							}
+						}
+					})
+				}
+				a, ok := bound.(*ssa.Alloc)
+				return ok && cellFromTicker(a)
+			}
+			return false
+		}
+		return false
+	}
+	return false
+}
+
+// callSiteArg: for a parameter of a function literal that has exactly one use, a direct call (plain, go or defer) in the
+// enclosing function, the argument passed for it there, and that enclosing function.
+func callSiteArg(p *ssa.Parameter) (ssa.Value, *ssa.Function) {
+	f := p.Parent()
+	if f == nil || f.Parent() == nil {
+		return nil, nil
+	}
+	idx := -1
+	for i, q := range f.Params {
+		if q == p {
+			idx = i
+		}
+	}
+	var site ssa.CallInstruction
+	n := 0
+	forEachInstr(f.Parent(), func(_ *ssa.BasicBlock, _ int, in ssa.Instruction) {
+		ci, ok := in.(ssa.CallInstruction)
+		if !ok {
+			return
+		}
+		v := ci.Common().Value
+		if mc, isMC := v.(*ssa.MakeClosure); isMC {
+			v = mc.Fn
+		}
+		if v == ssa.Value(f) && !ci.Common().IsInvoke() {
+			site = ci
+			n++
+		}
+	})
+	if n != 1 || idx < 0 || idx >= len(site.Common().Args) {
+		return nil, nil
+	}
+	return site.Common().Args[idx], f.Parent()
 }
 
 func ruleSignedRound(c *Ctx, rule string, sign *ssa.Function) {
 	c.ranRules[rule] = true
 	var sp *ssa.Call
-	for _, ci := range callsIn(sign, func(ci ssa.CallInstruction) bool { return strings.HasSuffix(calleeName(ci), "crypto/vault.Vault).SignPartial") }) {
+	for _, ci := range callsIn(sign, func(ci ssa.CallInstruction) bool {
+		return strings.HasSuffix(calleeName(ci), "crypto/vault.Vault).SignPartial")
+	}) {
 		sp = ci.(*ssa.Call)
 	}
 	pos := shortPos(c.P, sp)
